@@ -3,9 +3,13 @@ dimensions irrelevant to its property and widens the ones it is about."""
 
 from .gen import profile
 
+ALL_ZONES = ["UTC", "America/Los_Angeles", "Australia/Lord_Howe",
+             "Asia/Kathmandu"]
+
 PROFILES = {
-    "C01": profile(scan=0.5, reads_after=(1, 4), via_h=0.0,
-                   mix={"read": 8, "getter": 0, "cursor": 0}),
+    # -- fault-free, exact model -------------------------------------------
+    "C01": profile(scan=0.5, reads_after=(1, 4),
+                   mix={"read": 8, "getter": 0}),
     "C02": profile(mix={"remove": 6, "drop": 1.5, "remove_all": 0.6,
                         "update": 1, "read": 3, "getter": 1}),
     "C03": profile(mix={"update": 6, "update_all": 2, "remove": 1,
@@ -16,6 +20,61 @@ PROFILES = {
     "C07": profile(scan=0.5, read_vs_getter=0.1,
                    alphabets=["plain", "hostile", "hostile"],
                    mix={"read": 0, "getter": 8}, reads_after=(1, 4)),
+    "C08": profile(time="rich", zones=ALL_ZONES,
+                   update_args=["time"], scan=0.4,
+                   leaf_attr={"time": 8, "measurement": 0.5, "tag": 1,
+                              "field": 1},
+                   mix={"insert": 6, "insert_multiple": 2, "update": 3,
+                        "update_all": 0.7, "remove": 0, "remove_all": 0,
+                        "drop": 0, "read": 5, "getter": 3,
+                        "lifecycle": 1.5, "clock": 2},
+                   read_vs_getter=0.6, reads_after=(1, 3)),
+    "C10": profile(via_h=0.6, measurement_filter=0.6,
+                   mix={"read": 4, "getter": 3, "remove_all": 0.6,
+                        "drop": 0.8}),
+    # -- the simulated disk -----------------------------------------------------
+    "C04": profile(storages=["csv"], csv_vary=True, compact=0.5,
+                   alphabets=["plain", "hostile", "wide", "latin1",
+                              "reserved"],
+                   mix={"cursor": 3, "read": 2, "getter": 1,
+                        "lifecycle": 1.2}, reads_after=(0, 2)),
+    "C05": profile(storages=["csv"], compact=0.5,
+                   alphabets=["hostile", "reserved", "wide", "hostile"],
+                   numbers=["boundary", "boundary", "small"],
+                   none_values=0.2,
+                   cfg_dialects=True,
+                   mix={"insert": 7, "insert_multiple": 3, "update": 2,
+                        "update_all": 0.5, "remove": 2, "remove_all": 0.1,
+                        "drop": 0.3, "read": 1, "getter": 1,
+                        "lifecycle": 1.5, "clock": 0.5},
+                   reads_after=(0, 1)),
+    "C15": profile(storages=["csv"], modes=["r", "r+", "a", "a+", "w",
+                                            "w+", "r+", "r"],
+                   mix={"read": 5, "getter": 4, "cursor": 2,
+                        "lifecycle": 2.5, "invalid": 1.5, "illtyped": 0.5,
+                        "remove": 3, "update": 3}, reads_after=(0, 2)),
+    "C16": profile(storages=["csv"], auto_index=[True, False],
+                   mix={"insert": 8, "insert_multiple": 4, "cursor": 4,
+                        "read": 2, "getter": 1, "update": 0.7,
+                        "remove": 0.7, "lifecycle": 0.7},
+                   reads_after=(0, 1), max_points=25),
+    # -- collaborator faults -----------------------------------------------------
+    "C11": profile(mix={"invalid": 5, "illtyped": 1.5, "read": 3,
+                        "getter": 2, "lifecycle": 0.5},
+                   auto_index=[True, False], len=(3, 25)),
+    "C14": profile(mix={"illtyped": 6, "read": 2, "getter": 2,
+                        "lifecycle": 0.5}, len=(3, 25)),
+    # -- I/O faults ----------------------------------------------------------------
+    "C12": profile(storages=["csv"], len=(3, 14), max_points=10,
+                   cfg_override={"flush_on_insert": True},
+                   mix={"update": 3, "remove": 3, "remove_all": 0.5,
+                        "drop": 0.7, "read": 1, "getter": 0.5,
+                        "lifecycle": 0.3, "cursor": 1}, reads_after=(0, 1)),
+    "C13": profile(storages=["csv"], len=(3, 14), max_points=10,
+                   cfg_override={"flush_on_insert": True},
+                   mix={"update": 3, "remove": 3, "remove_all": 0.5,
+                        "drop": 0.7, "read": 2, "getter": 1,
+                        "lifecycle": 0.5, "cursor": 1}, reads_after=(0, 1)),
 }
 
 
